@@ -598,6 +598,8 @@ def variants(d, seed):
         rsup = [rsup[0]] + rsup[1:k][::-1] + rsup[k:]
     out.append(('section order', '%s\n\n[Pair]\nA-B : %s\n%s\n\n[Tabulation]\ntarget : LAMMPS\nnr : 3\ncutoff : 2.0\n' % ('\n'.join(rsup), base, extra_pair)))
     out.append(('number spellings', canonical.replace('A-B : %s\n' % base, 'A-B : %s\n' % respell(base))))
+    # blanks inside the brackets of the section headers
+    out.append(('blanks inside section brackets', canonical.replace('[Tabulation]', '[Tabulation ]').replace('[Pair]', '[ Pair ]').replace('[Potential-Form]', '[Potential-Form\t]').replace('[Table-Form:', '[ Table-Form:')))
     # every value starts on the line after its key (the custom-form signatures keep ' = ')
     out.append(('values on the line after the key', canonical.replace(' : ', ' :\n        ')))
     out.append(('blank lines and trailing blanks', canonical.replace('\n[Pair]\n', '\n\n\n[Pair]   \n').replace('A-B : %s\n' % base, 'A-B : %s   \n\n' % base)))
